@@ -19,7 +19,7 @@ Print Assumptions C12_cancel_settles.
 Theorem C12_update_settles : forall s names reports n,
   In n (pkg_orders s names) -> (length (pkg_orders s names) <= length reports)%nat -> settled (exec_update s names reports) n.
 Proof. exact exec_update_settles. Qed.
-Theorem C12_replace_settles : forall s names reports n r, In (n, r) (zip (pkg_orders s names) reports) -> settled (exec_replace s names reports) n.
+Theorem C12_replace_settles : forall s names reports n r, In (n, r) (zip (pkg_sendable s names) reports) -> settled (exec_replace s names reports) n.
 Proof. exact exec_replace_settles. Qed.
 Print Assumptions C12_replace_settles.
 (* retries exhausted: placements are completed, everything else goes back to Executable *)
@@ -77,17 +77,16 @@ Example C12_example_cancel :
   map (ostat (exec_cancel ex_s [0; 1] [])) [0; 1] = [Some SExecutable; Some SExecutable].
 Proof. vm_compute. repeat split. Qed.
 
-(* the replace handler zips the orders of the package with the reports of the instructions that were SENT (orders already complete are
-   skipped when the instructions are built): with a completed order in front, the report of the second order is applied to the first and
-   the second is left Replacing.  Not reachable in live trading through the order guards (the stream does not complete a Replacing order);
-   reachable in simulation, where it aborts the run (F-C12-1). *)
-Definition ex_r : lstate :=
-  lrun ex_s [LResponseCancel [0; 1] [(7001, CFailure true); (7002, CFailure false)]].
-Theorem C12_replace_attribution_refuted :
-  exists s names reports n, In n (pkg_orders s names) /\ length reports = length (filter (fun k => match ostat s k with Some SExecComplete => false | _ => true end) (pkg_orders s names)) /\
-    ostat (exec_replace s names reports) n = Some SReplacing.
-Proof.
-  exists (lrun ex_s [LResponseCancel [0; 1] [(7001, CFailure false); (7002, CFailure false)]; LReq 0 2 300; LReq 1 2 300;
-                      LResponseCancel [0] [(7001, CFailure true)]]), [0; 1], [RReport (CSuccess 500) (Some (7003, 300, 500))], 1.
-  vm_compute. repeat split; auto.
-Qed.
+(* replace packages: the instruction list skips the orders that are already complete (replace_instructions) and - since the repair of
+   F-C12-1 in /repo - so does the handler: a completed order of the package is left exactly as it is by the response, and (C12_replace_settles)
+   the i-th report goes to the i-th order that was sent.  On the pinned tree the handler zipped the reports with the UNFILTERED orders: with a
+   completed order in front, the next order's report was applied to it and the last order was left Replacing; in simulation the run aborted
+   with a TypeError (reproduced on the real FlumineSimulation by the family simulated_multi_order_packages). *)
+Theorem C12_replace_skips_completed : forall s names reports n, INV s -> ostat s n = Some SExecComplete -> ostat (exec_replace s names reports) n = Some SExecComplete.
+Proof. exact replace_skips_completed. Qed.
+Print Assumptions C12_replace_skips_completed.
+Example C12_example_replace :
+  let s := lrun ex_s [LResponseCancel [0; 1] [(7001, CFailure false); (7002, CFailure false)]; LReq 0 2 300; LReq 1 2 300; LResponseCancel [0] [(7001, CFailure true)]] in
+  map (ostat s) [0; 1] = [Some SExecComplete; Some SReplacing] /\ pkg_sendable s [0; 1] = [1] /\
+  map (ostat (exec_replace s [0; 1] [RReport (CSuccess 500) (Some (7003, 300, 500))])) [0; 1; 1000] = [Some SExecComplete; Some SExecComplete; Some SExecutable].
+Proof. vm_compute. repeat split. Qed.
